@@ -159,6 +159,8 @@ pub struct Rig {
     pub workers: Vec<Option<Peer>>,
     /// kernel thread id of the hub thread (to see where it blocks)
     pub hub_tid: i64,
+    /// the hub refuses our requests (it cannot be stopped through the socket: its thread is left behind)
+    pub deny: bool,
 }
 
 impl Rig {
@@ -168,10 +170,15 @@ impl Rig {
 
     /// the last `small` workers get a channel whose ceiling (4 KiB) refuses a big request
     pub fn start_small(nworkers: usize, timeout_s: u32, small: usize) -> Rig {
-        retrying("rig start", 3, || Rig::try_start_small(nworkers, timeout_s, small))
+        retrying("rig start", 3, || Rig::try_start_small(nworkers, timeout_s, small, false))
     }
 
-    fn try_start_small(nworkers: usize, timeout_s: u32, small: usize) -> Result<Rig, String> {
+    /// `deny`: `command_allowed_uids` lists another uid than ours — every request is refused
+    pub fn start_cfg(nworkers: usize, timeout_s: u32, small: usize, deny: bool) -> Rig {
+        retrying("rig start", 3, || Rig::try_start_small(nworkers, timeout_s, small, deny))
+    }
+
+    fn try_start_small(nworkers: usize, timeout_s: u32, small: usize, deny: bool) -> Result<Rig, String> {
         let dir = tempfile::Builder::new().prefix("vhub").tempdir_in("/tmp").map_err(|e| format!("tempdir: {e}"))?;
         let sock_path = dir.path().join("s").to_string_lossy().to_string();
         let pid = DUMMY_PID.load(std::sync::atomic::Ordering::SeqCst);
@@ -203,6 +210,8 @@ impl Rig {
                         worker_automatic_restart: Some(false),
                         worker_timeout: Some(timeout_s),
                         saved_state: None,
+                        // SAFETY: getuid has no preconditions
+                        command_allowed_uids: if deny { Some(vec![unsafe { libc::getuid() } + 1]) } else { None },
                         ..Default::default()
                     };
                     let config = ConfigBuilder::new(fc, format!("{state_dir}/config.toml"))
@@ -252,7 +261,7 @@ impl Rig {
                 return Err(format!("hub did not start: {why}"));
             }
         };
-        Ok(Rig { _dir: dir, sock_path, hub: Some(hub), workers, hub_tid })
+        Ok(Rig { _dir: dir, sock_path, hub: Some(hub), workers, hub_tid, deny })
     }
 
     pub fn connect(&self) -> Peer {
@@ -292,7 +301,7 @@ impl Rig {
 impl Drop for Rig {
     fn drop(&mut self) {
         // stop the hub if it still runs: a hard stop with every worker channel closed
-        if !self.hub_finished() {
+        if !self.hub_finished() && !self.deny {
             for w in self.workers.iter_mut() {
                 *w = None;
             }
